@@ -468,9 +468,19 @@ pub fn program_units(p: &Program) -> Vec<ExpUnit> {
 }
 
 fn program_has_contra(p: &Program) -> bool {
-    p.units
-        .iter()
-        .any(|u| matches!(u, Unit::Rows(r) if r.contra.is_some()))
+    p.units.iter().any(|u| match u {
+        Unit::Rows(r) => match &r.contra {
+            None => false,
+            // a contradiction aimed at a row/column that does not exist is no contradiction
+            Some(Contra::TooFewCols { row }) | Some(Contra::TooManyCols { row, .. }) => {
+                (*row as usize) < r.rows.len() && !r.cols.is_empty()
+            }
+            Some(Contra::NullIntoNotNull { row, col }) | Some(Contra::WrongKind { row, col, .. }) => {
+                (*row as usize) < r.rows.len() && (*col as usize) < r.cols.len()
+            }
+        },
+        _ => false,
+    })
 }
 
 pub fn ok_units() -> Reply {
